@@ -257,3 +257,41 @@ def f_export_large(case):
 
 from checks.c19 import st_density_large
 FACETS.append(Facet('np/density-export-large-N', f_export_large, strategy=lambda t: st_density_large(), examples={'quick': 24, 'thorough': 800}, shards={'quick': 2, 'thorough': 8}))
+
+
+def f_constructor_call(case):
+    """StabilizerState(gs, ps, r) as documented (positional and keyword): the object denotes exactly those rows and that rank."""
+    be, N = case['be'], case['N']
+    Bk = B.backend(be)
+    sm = Bk.mods()['s']
+    c = C.dec_clifford(case['rows'])
+    L, K = B.tableau_rows(c)
+    r = case['r']
+    mk = (lambda a: B.ints(a)) if be == 'np' else (lambda a: B.t_vec(a))
+    g = B.np_g(L) if be == 'np' else B.t_g(L)
+    how = case['how']
+    if how == 'positional':
+        S = sm.StabilizerState(g, mk(K), r)
+    elif how == 'keywords':
+        S = sm.StabilizerState(gs=g, ps=mk(K), r=r)
+    elif how == 'gs-ps':
+        S = sm.StabilizerState(g, mk(K)); r = 0
+    else:
+        S = sm.StabilizerState(g); K = 0 * K; r = 0
+    l, k, rr = Bk.read_state(S)
+    C.expect_list((l, k), (L, K), 'StabilizerState(%s) rows' % how, 'ctor-rows')
+    check(rr == r, 'StabilizerState(%s) has r=%r expected %r' % (how, rr, r), 'ctor-rank')
+    S2 = S.copy()
+    l2, k2, r2 = Bk.read_state(S2)
+    C.expect_list((l2, k2), (L, K), 'copy() rows', 'copy-rows')
+    check(r2 == r, 'copy() has r=%r expected %r' % (r2, r), 'copy-rank')
+    return {'nt': bool((K == 2).any()) and r > 0, 'labels': [how, 'N=%d' % N]}
+
+
+def st_constructor_call(be, hiN):
+    return st.integers(1, hiN).flatmap(lambda N: st.fixed_dictionaries(
+        {'be': st.just(be), 'N': st.just(N), 'rows': gen.st_clifford_rows(N), 'r': st.integers(0, N), 'how': st.sampled_from(['positional', 'keywords', 'gs-ps', 'gs'])}))
+
+
+FACETS.append(Facet('np/constructor-call', f_constructor_call, strategy=lambda t: st_constructor_call('np', 4), examples={'quick': 500, 'thorough': 20000}))
+FACETS.append(Facet('torch/constructor-call', f_constructor_call, strategy=lambda t: st_constructor_call('torch', 3), examples={'quick': 150, 'thorough': 5000}, backend='torch'))
